@@ -2783,6 +2783,17 @@ def run_c04(ctx: fw.Ctx) -> None:
     eval_resolve(ctx, st2, [dict(base, search=p) for p in perms], [None])
     st2.exhaustive = True
     lookalike_stream(ctx)
+    st_two = ctx.stream("the same module name in two directories, required from files in both (each must get the file next to it), statement and expression level, either order")
+    two = []
+    for pre in ["require('helper')\n", "local h0 = require('helper')\n", ""]:
+        for how in ["require('lib.mod')", "local m = require('lib.mod')", "t = { k = require('lib.mod') }"]:
+            for inner in ["require('helper')", "local h = require('helper')", "function g() return require('helper') end"]:
+                for post in ["", "require('helper')\n", "u = require('helper')\n"]:
+                    for sp in ([], [""], ["lib"]):
+                        two.append({"files": {"main.lua": f"start()\n{pre}{how}\n{post}", "lib/mod.lua": f"in_mod()\n{inner}\ntail_mod()\n", "helper.lua": "in_root_helper()\n",
+                                              "lib/helper.lua": "in_lib_helper()\n"}, "dirs": [], "main": "main.lua", "search": sp})
+    eval_resolve(ctx, st_two, two[:: ctx.n(3, 1)], [None])
+    st_two.exhaustive = not ctx.quick
     st_sys = ctx.stream("a require in every syntactic site, in the main file and in a required file")
     sys_trees = []
     for i, tmpl in enumerate(REQ_POSITIONS):
@@ -2968,14 +2979,18 @@ def run_c12(ctx: fw.Ctx) -> None:
     st_ret.exhaustive = True
     lookalike_stream(ctx)
     st_rel = ctx.stream("a module that exists only next to the requiring file's *requirer* is not found (lookup starts at the file's own directory)")
-    for variant in range(ctx.n(12, 120)):
-        how = r.choice(["local m = require('lib.mod')", "f(require 'lib.mod')", "return require('lib.mod')", "require('lib.mod')",
-                        "t = { k = require('lib.mod') }", "local m = require('lib.mod').x"])
-        inner = r.choice(["require('helper')", "local h = require('helper')", "do require 'helper' end", "function g() return require('helper') end"])
-        files = {"main.lua": f"start()\n{how}\n", "lib/mod.lua": f"in_mod()\n{inner}\n", "helper.lua": "in_root_helper()\n"}
-        if r.random() < 0.5:
+    hows = ["local m = require('lib.mod')", "f(require 'lib.mod')", "return require('lib.mod')", "require('lib.mod')", "t = { k = require('lib.mod') }", "local m = require('lib.mod').x"]
+    inners = ["require('helper')", "local h = require('helper')", "do require 'helper' end", "function g() return require('helper') end"]
+    # `pre`: the main file has ALREADY resolved the same module name from its own directory (a lookup remembered by name only would answer for lib/ as well)
+    pres = ["", "require('helper')\n", "local h0 = require('helper')\n"]
+    combos_rel = [(h, i_, p_, o) for h in hows for i_ in inners for p_ in pres for o in (0, 1, 2) if not (h.startswith("return") and False)]
+    if ctx.quick:
+        combos_rel = combos_rel[::2]
+    for how, inner, pre, other in combos_rel:
+        files = {"main.lua": f"start()\n{pre}{how}\n", "lib/mod.lua": f"in_mod()\n{inner}\n", "helper.lua": "in_root_helper()\n"}
+        if other:
             files["other/helper.lua"] = "in_other_helper()\n"
-        tree = {"files": files, "dirs": [], "main": "main.lua", "search": r.choice([[], ["other"] if "other/helper.lua" in files else []])}
+        tree = {"files": files, "dirs": [], "main": "main.lua", "search": ["other"] if other == 2 else []}
         case = {"kind": "filetree", **tree}
         st_rel.record(case, key=json.dumps(case, sort_keys=True))
         status, res = resolve_tree(tree)
